@@ -327,7 +327,8 @@ def main(tier, seed, only=None):
         "graphs with more vertices are covered by the small-scope argument (the encoding is local: per-vertex rank comparison with neighbours)",
     ]
     shards = gcheck.split_shards(cases, cost, 600)
-    par.run_shards(run, worker, shards, seed)
+    first, rest = gcheck.heavy_first(shards, _CASES)
+    par.run_shards(run, worker, rest, seed, first=first)
     cov = {
         "evaluations": run.c("evaluations"),
         "distinct_nontrivial": sum(1 << len(set(range(g[0]))) for g in run.total.sets.get("graphs", ())),
